@@ -361,3 +361,36 @@ def r4(ctx):
                 eff = (c["op"], k, truth)
                 if eff not in (("Le", 1, True), ("Lt", 2, True), ("Gt", 1, False), ("Ge", 2, False)):
                     yield VIOL("C09-R4", "canonicalize_uri_path/above-root-bound", "above-root test is `i %s %s` (taken when %s); must be i <= 1" % eff, where=b.span_of_block(a))
+
+
+@M.rule("C09-R5", "every path result other than the empty / \"/\" special case comes after the absolute-path test")
+def r5(ctx):
+    """The relative-path refusal must cover both modes: every Ok of canonicalize_uri_path is either the special case
+    (input empty or equal to "/") or control-dependent on `uri_path.starts_with('/')` having been true."""
+    b = ctx.fn(CUP)
+    inp = param_by_name(b, "uri_path")
+    oks = result_aggs(b, "Ok")
+    ctx.count(len(oks))
+    if not oks:
+        raise AnchorMissing("Ok results of canonicalize_uri_path")
+    bad = []
+    for ob, i, s in oks:
+        absolute = special = False
+        for a, sx, c, truth in guard_conditions(b, ob):
+            if c["kind"] != "call":
+                continue
+            t = c["term"]
+            if re.search(r"str>::starts_with$", c["callee"]) and truth is True and const_value(op_const(t["args"][1]) or {}) == ord("/") and inp in b.slice_op(t["args"][0]).locals:
+                absolute = True
+            if re.search(r"str>::is_empty$", c["callee"]) and truth is True and inp in b.slice_op(t["args"][0]).locals:
+                special = True
+            if re.search(r"PartialEq::eq$", c["callee"]) and truth is True:
+                sa, sb = b.slice_op(t["args"][0]), b.slice_op(t["args"][1])
+                if "/" in sa.const_values() + sb.const_values() and inp in (sa.locals | sb.locals):
+                    special = True
+        if not (absolute or special):
+            bad.append(ob)
+    if bad:
+        yield VIOL("C09-R5", "canonicalize_uri_path/absolute-test-skipped", "%d of %d Ok results are reached without the `starts_with('/')` test having succeeded (and are not the empty / \"/\" case): a relative path is canonicalised in that mode instead of being refused" % (len(bad), len(oks)), where=b.span_of_block(bad[0]))
+    else:
+        yield PASS("C09-R5", "canonicalize_uri_path/absolute-test", "all %d Ok results: special case (empty or \"/\") or after starts_with('/') == true" % len(oks), [site(b, ob, "Ok") for ob, _, _ in oks])
